@@ -119,6 +119,9 @@ var resultRe = regexp.MustCompile(`^VERIF-RESULT id=(\S+) outcome=(\S+) failed=(
 var panicRe = regexp.MustCompile(`^VERIF-PANIC id=(\S+) (.*)$`)
 
 // nativeReplay runs the cases against the natively compiled /repo tree.
+// raceReplay: events labelled data-race are confirmed under the race detector.
+var raceReplay bool
+
 func nativeReplay(pkg *ssa.Package, cases []replayCase, timeout time.Duration) (map[string]*replayOutcome, string, error) {
 	tmp, err := os.MkdirTemp("", "vcheck-replay-")
 	if err != nil {
@@ -142,8 +145,12 @@ func nativeReplay(pkg *ssa.Package, cases []replayCase, timeout time.Duration) (
 	cf := filepath.Join(tmp, "cases.json")
 	cb, _ := json.Marshal(cases)
 	os.WriteFile(cf, cb, 0o644)
-	cmd := exec.Command("go", "test", "-v", "-vet=off", "-count=1", "-tags", "verif verif_replay", "-overlay", ovFile,
-		"-run", "^TestVerifReplay$", "-timeout", fmt.Sprintf("%ds", int(timeout.Seconds())), ".")
+	goArgs := []string{"test", "-v", "-vet=off", "-count=1", "-tags", "verif verif_replay", "-overlay", ovFile,
+		"-run", "^TestVerifReplay$", "-timeout", fmt.Sprintf("%ds", int(timeout.Seconds()))}
+	if raceReplay {
+		goArgs = append(goArgs, "-race")
+	}
+	cmd := exec.Command("go", append(goArgs, ".")...)
 	cmd.Dir = repoDir
 	cmd.Env = append(os.Environ(), "GOFLAGS=-mod=mod", "GOPROXY=off", "GOSUMDB=off", "GOTOOLCHAIN=local", "VERIF_REPLAY="+cf)
 	out, _ := cmd.CombinedOutput()
@@ -181,6 +188,9 @@ func reproduced(c replayCase, o *replayOutcome, rawOut string) bool {
 			return strings.Contains(rawOut, "test timed out")
 		}
 		return c.Kind == "panic" && (strings.Contains(rawOut, "fatal error") || strings.Contains(rawOut, "panic:"))
+	}
+	if c.Label == "data-race" {
+		return strings.Contains(rawOut, "WARNING: DATA RACE")
 	}
 	switch c.Kind {
 	case "panic":
@@ -365,13 +375,27 @@ func cmdRun(args []string) {
 		if *keep {
 			fmt.Println(raw)
 		}
+		// data races are confirmed by a second native run under the race detector
+		raceRaw := map[string]string{}
+		for k, c := range cases {
+			if k < nViol && c.Label == "data-race" {
+				raceReplay = true
+				_, rr, _ := nativeReplay(pkg, []replayCase{c}, 10*time.Minute)
+				raceReplay = false
+				raceRaw[c.ID] = rr
+			}
+		}
 		if err != nil {
 			inconclusive = append(inconclusive, "native replay failed: "+err.Error()+": "+lastLines(raw, 15))
 		}
 		for k, c := range cases {
 			o := outc[c.ID]
 			if k < nViol {
-				if reproduced(c, o, raw) {
+				rawFor := raw
+				if rr, ok := raceRaw[c.ID]; ok {
+					rawFor = rr
+				}
+				if reproduced(c, o, rawFor) {
 					os.MkdirAll(filepath.Join(verifDir, "replays"), 0o755)
 					cb, _ := json.MarshalIndent(c, "", " ")
 					h := sha1.Sum(cb)
